@@ -708,6 +708,51 @@ func (a *analysis) doFieldAddr(fn *ssa.Function, fa *ssa.FieldAddr, st *state) {
 	}
 }
 
+// freshFromCtor: the object whose field is written is the result of a call, in the same function, of the constructor of
+// its struct type (a function New<Struct> of the struct's package), and no call, go or defer that is given the object
+// precedes the write in the source
+func freshFromCtor(ev accessEv) bool {
+	call, ok := ev.base.(*ssa.Call)
+	if !ok || call.Parent() != ev.fn {
+		return false
+	}
+	callee := call.Call.StaticCallee()
+	if callee == nil || ev.baseTyp == nil || callee.Pkg == nil || ev.baseTyp.Obj().Pkg() == nil {
+		return false
+	}
+	if callee.Name() != "New"+ev.baseTyp.Obj().Name() || callee.Pkg.Pkg.Path() != ev.baseTyp.Obj().Pkg().Path() {
+		return false
+	}
+	refs := call.Referrers()
+	if refs == nil {
+		return false
+	}
+	for _, r := range *refs {
+		var args []ssa.Value
+		switch x := r.(type) {
+		case *ssa.Call:
+			args = x.Call.Args
+		case *ssa.Go:
+			args = x.Call.Args
+		case *ssa.Defer:
+			args = x.Call.Args
+		case *ssa.Store:
+			if x.Val == ssa.Value(call) && x.Pos() < ev.pos {
+				return false // stored somewhere before the write
+			}
+			continue
+		default:
+			continue
+		}
+		for _, a := range args {
+			if a == ssa.Value(call) && r.Pos() < ev.pos {
+				return false
+			}
+		}
+	}
+	return true
+}
+
 // an allocation that never leaves the function except by being returned (or copied as a whole value): every access
 // to it inside the function is to a private object
 func privateAlloc(al *ssa.Alloc) bool {
@@ -1338,6 +1383,15 @@ func (a *analysis) tables(tfns []*ssa.Function, wl []*wlEntry) *output {
 						ex = "prepublish"
 						e.used = true
 					}
+				}
+			}
+			// the same exemption for a write that moved to another function (a helper was extracted), when it is
+			// structurally what the entry justifies: the object written is the result of its constructor (New<Struct>)
+			// called in this very function, and the write comes before the object is handed to anything
+			if ex == "" && len(wlBy["prepublish "+field]) > 0 && freshFromCtor(ev) {
+				ex = "prepublish"
+				for _, e := range wlBy["prepublish "+field] {
+					e.used = true
 				}
 			}
 		}
